@@ -119,7 +119,15 @@ def run(ctx: vlib.Ctx):
                                           "C17_binding_refuted", "C17_clean_id_refuted", "C17_shard_sound", "C17_binding", "C17_first_import_wins_refuted",
                                           "C17_prepopulated_refuted", "C17_not_at_qualname_refuted", "C17_local_root_refuted",
                                           "C17_binding_chain_refuted", "C17_binding_ok_sound", "C17_assembly_ok_sound", "C17_render_named", "C17_render_chain"])
-    ctx.coqchk(["VerifProps.C17_closed", "VerifProps.C17_cleanid"])
+    ctx.theorems("props/C17_typeref.vo", ["C17_type_ident_local", "C17_type_ident_nonlocal", "C17_type_ident_alias_is_text",
+                                           "C17_type_ident_chain_partial", "C17_type_ident_chain_refuted", "C17_local_rendering_not_chain",
+                                           "C17_typeref_sites_partial", "C17_typeref_sites_refuted", "C17_typeref_known_raw_witnesses",
+                                           "C17_collection_typerefs_are_identifiers", "C17_class_reference_is_chain", "C17_local_class_alias",
+                                           "C17_clean_id_model_is_kernel", "C17_local_render_is_type_ident", "C17_local_alias_binding_partial",
+                                           "C17_local_alias_binding_refuted"], kernels=["K42", "K44"])
+    ctx.theorems("props/C17_imports.vo", ["C17_imports_cover_partial", "C17_imports_cover_refuted", "C17_visited_imports", "C17_chain_root_is_package",
+                                           "C17_chain_root_resolves"], kernels=["K46"])
+    ctx.coqchk(["VerifProps.C17_closed", "VerifProps.C17_cleanid", "VerifProps.C17_typeref", "VerifProps.C17_imports"], timeout=2400)
     ctx.trusted += [
         "harness/c17_translate.py: Python ast -> Closed.v AST (fail-closed; interning of names is injective by construction); "
         "the abstraction itself: expressions = tree of loaded names, attribute access / calls / operators never bind names",
@@ -140,6 +148,17 @@ def run(ctx: vlib.Ctx):
         "kernel K42 (tools/kernels/k42_clean_id.py): the regular expression \\W|^(?=\\d) is read as a character map after checking that the pattern "
         "text and the body of clean_id are exactly the expected ones (fail closed); the \\w / \\d tables below code point 0x3000 come from Python's re "
         "with the pattern read from the source and are validated against the real clean_id exhaustively on every run; code points >= 0x3000 are outside the kernel",
+        "kernel K44 (tools/kernels/k44_type_ident.py): get_type_name_identifier / is_local_type_name are read after checking that their bodies are exactly "
+        "the expected ones (fail closed; marker string read from the source), as a function of the rendering type_name(typ); compared per run with the real "
+        "method (text pasted + object registered + alias) on every class and field annotation of the generated schemas. The table of type reference sites is "
+        "an AST scan by NAME (type_name / get_type_name_identifier / clean_id must not be aliased: checked) whose classification rules (build-time raise, "
+        "print, `!r`-only variable, statically quoted text, clean_id(..) wrapper, argument kinds of the raw sites) are the trusted part; a rendering that "
+        "reaches generated code through a variable is followed one assignment only when it is an f-string spliced by `!r`, otherwise the call site itself is judged",
+        "kernel K46 (tools/kernels/k46_type_modules.py): add_type_modules / ensure_module_imported / ensure_object_imported read after checking that their "
+        "bodies are exactly the expected ones (fail closed), as a function of what the method reads from a type (harness/c17_imports.py to_mty: origin is "
+        "MappingProxyType, name of inspect.getmodule(t), is Literal, literal values / __args__ / __constraints__ / __bound__, recursively; Annotated and "
+        "deeper than 7 levels skipped); compared per run with the real methods run on a recording globals (sequence of setdefault calls, module objects "
+        "checked against sys.modules) on the field annotations of the generated schemas",
         "NsBind.clean_id models re.sub(r'\\W|^(?=\\d)', '_', s) for ASCII input only (compared with the implementation each run)",
     ]
     ctx.assumptions += [
@@ -166,14 +185,16 @@ def run(ctx: vlib.Ctx):
 
     # ---- 2+3. run the schemas in worker processes
     thorough = not ctx.quick()
-    n_grammar = ctx.budget(170, 2600)
-    n_ident = ctx.budget(50, 400)
-    jobs = 4 if ctx.quick() else 12
+    # (resource rule of the shared machine: at most 6 concurrent workers / coqc also in the thorough tier; budgets sized for that:
+    #  two thorough runs with 2600 / 1300 grammar schemas were killed by the machine-wide OOM killer in round 6)
+    n_grammar = ctx.budget(120, 500)
+    n_ident = ctx.budget(40, 120)
+    jobs = 4 if ctx.quick() else 6
     res_g, skip_g = run_family(ctx, "grammar", n_grammar, ctx.budget(24, 40), jobs, ctx.budget(10, 25), 8.0)
     res_i, skip_i = run_family(ctx, "identity", n_ident, ctx.budget(12, 20), jobs, ctx.budget(10, 20), 8.0)
-    res_l, skip_l = run_family(ctx, "latename", ctx.budget(60, 600), ctx.budget(12, 20), jobs, ctx.budget(10, 25), 8.0)
-    res_m, skip_m = run_family(ctx, "multimod", ctx.budget(60, 600), ctx.budget(10, 16), jobs, ctx.budget(10, 25), 8.0)
-    res_d, skip_d = run_family(ctx, "defaults", ctx.budget(40, 400), ctx.budget(10, 16), jobs, ctx.budget(10, 25), 8.0)
+    res_l, skip_l = run_family(ctx, "latename", ctx.budget(40, 150), ctx.budget(12, 20), jobs, ctx.budget(10, 25), 8.0)
+    res_m, skip_m = run_family(ctx, "multimod", ctx.budget(50, 150), ctx.budget(10, 16), jobs, ctx.budget(10, 25), 8.0)
+    res_d, skip_d = run_family(ctx, "defaults", ctx.budget(30, 100), ctx.budget(10, 16), jobs, ctx.budget(10, 25), 8.0)
     skip_i = skip_i + skip_l + skip_d + skip_m
     if skip_g or skip_i:
         ctx.notes.append(f"schemas skipped because a call did not return in time (library loops on some inputs; not a C17 matter): grammar {skip_g}, identity {skip_i}")
@@ -221,6 +242,8 @@ def run(ctx: vlib.Ctx):
 
     # ---- type_name model vs implementation, and vs the text of the generated error paths
     render_corr(ctx, all_res)
+    k44_corr(ctx, all_res)
+    k46_corr(ctx, all_res)
 
     # ---- per-program kernel-checked closedness (translation validation)
     t_workers = time.time() - t_start
@@ -298,7 +321,7 @@ def coq_programs(ctx, programs, attr_cases, all_res):
         files.append((f"c17_closed_{ctx.seed}_{si // shard}", txt))
         meta.append((chunk, ok_idx, [(fam, idx) for fam, idx, reads, sets in attr_cases if (fam, idx) in keys], info))
     coq_programs._seen = set()
-    jobs = 4 if ctx.quick() else 12
+    jobs = 6
     res = coqc_many(files, timeout=900, jobs=jobs)
     # green shards: the kernel accepted `shard_closed`; for the others compile the diagnosis variant to learn which cases fail
     redo = [k for k, (ok, out) in enumerate(res) if not ok]
@@ -476,8 +499,8 @@ def clean_id_corr(ctx):
 
 
 def k42_corr(ctx):
-    """translated kernel K42 (clean_id as a character map) vs the real clean_id: every code point below 0x3000 alone and
-    after a letter (thorough: also in front of a digit), plus random strings"""
+    """translated kernel K42 (clean_id as a character map) vs the real clean_id: every code point below 0x3000 alone (thorough: also
+    after a letter and in front of a digit), plus random strings"""
     import random
     from mashumaro.core.meta.types.common import clean_id
     ctx.theorems("props/C17_cleanid.vo", ["C17_clean_id_identifier", "C17_clean_id_length", "C17_clean_id_kernel_refuted"], kernels=["K42"])
@@ -486,9 +509,9 @@ def k42_corr(ctx):
     rng = random.Random(f"c17-k42-{ctx.seed}")
     strs = []
     for cp in range(0x3000):
-        strs.append(chr(cp))
-        strs.append("a" + chr(cp))
+        strs.append(chr(cp))          # alone: decides both tables (digit: "_" + c, other word character: c, non-word: "_")
         if not ctx.quick():
+            strs.append("a" + chr(cp))
             strs.append(chr(cp) + "1")
     alphabet = "abzAZ09_.<>-[], '\"\\/:+*()!~\x7f\x01\u00b2\u00e9\u0660\u0966\u2160\u2028\u00aa\u0300\u2f00"
     for _ in range(ctx.budget(400, 4000)):
@@ -508,6 +531,104 @@ def k42_corr(ctx):
         ctx.correspondence(name, len(cases), len(bad), str([strs[i] for i in bad[:8]]))
         if bad:
             ctx.not_shown("translation validation K42", f"inputs {[strs[i] for i in bad[:8]]!r}")
+    ctx.count(n=len(cases))
+
+
+def k44_corr(ctx, all_res):
+    """translated kernel K44 (get_type_name_identifier as a function of the rendering) vs the real method on the classes and field
+    annotations of the generated schemas, plus synthetic renderings around the marker"""
+    import random
+    from mashumaro.core.meta.helpers import is_local_type_name
+    from mashumaro.core.meta.types.common import clean_id
+    if not ctx.kernel_report.get("K44", {}).get("ok") or not ctx.kernel_report.get("K42", {}).get("ok"):
+        return
+    cases = []
+    for fam, r in all_res:
+        for rend, text, alias in r.get("ident_cases", []):
+            cases.append((rend, text, alias))
+    n_real = len(cases)
+    has_local = any(c[2] is not None for c in cases)
+    ctx.hist("type-ident", "real-calls", n_real)
+    ctx.hist("type-ident", "real-calls-local", sum(1 for c in cases if c[2] is not None))
+    # synthetic renderings: the marker, broken markers, marker at the ends, digits first (what the real functions say about the string)
+    rng = random.Random(f"c17-k44-{ctx.seed}")
+    parts = ["<locals>", "<local", "locals>", "<locals", "<", ">", ".", "m", "mk", "L", "_", "1", "typing.List[", "]", " ", "<<locals>>", "\u00e9", "K9"]
+    synth = ["", "<locals>", "m.mk.<locals>.L", "m.L", "1m.<locals>.L", "typing.List[m.mk.<locals>.L]", "<locals", "m.<local>.L", "a<locals>"]
+    for _ in range(ctx.budget(300, 3000)):
+        synth.append("".join(rng.choice(parts) for _ in range(rng.randrange(1, 6))))
+    for x in synth:
+        if is_local_type_name(x):
+            cases.append((x, clean_id(x), clean_id(x)))
+        else:
+            cases.append((x, x, None))
+    cases = list(dict.fromkeys(c for c in cases if all(ord(ch) < 0x3000 for ch in c[0])))
+
+    def lst(x):
+        return "[" + "; ".join(str(ord(ch)) for ch in x) + "]%N"
+
+    def opt(a):
+        return "None" if a is None else f"(Some {lst(a)})"
+    ccases = [f"({lst(r)}, ({lst(t)}, {opt(a)}))" for r, t, a in cases]
+    defs = ("Definition lN_eqb (a b : list N) : bool := if list_eq_dec N.eq_dec a b then true else false.\n"
+            "Definition oN_eqb (a b : option (list N)) : bool := match a, b with Some x, Some y => lN_eqb x y | None, None => true | _, _ => false end.\n")
+    bad, log = vlib.coq_bad_idx(f"c17_k44_{ctx.seed}", "", "From VerifGen Require Import K42 K44.", defs, ccases,
+                                "fun c => lN_eqb (fst (K44.type_ident (fst c))) (fst (snd c)) && oN_eqb (snd (K44.type_ident (fst c))) (snd (snd c))",
+                                "list N * (list N * option (list N))", shard=2500, needs=["gen/K44.vo"])
+    name = ("K44 (get_type_name_identifier translated: pasted text + registered alias as a function of the rendering) vs the real method on the classes "
+            "and annotations of the generated schemas + synthetic renderings")
+    if bad is None:
+        ctx.correspondence(name, len(cases), -1, log)
+        ctx.not_shown("translation validation K44", log)
+    else:
+        ctx.correspondence(name, len(cases), len(bad), str([cases[i] for i in bad[:6]]))
+        if bad:
+            ctx.not_shown("translation validation K44", f"rendering, real text, real alias: {[cases[i] for i in bad[:6]]!r}")
+    ctx.obligation("the real get_type_name_identifier was exercised on local and non-local classes", n_real > 0 and has_local,
+                   f"{n_real} real calls")
+    ctx.count(n=len(cases))
+
+
+def k46_corr(ctx, all_res):
+    """translated kernel K46 (add_type_modules as a function of what it reads from a type) vs the real method on the field annotations
+    of the generated schemas + a fixed list of typing shapes"""
+    if not ctx.kernel_report.get("K46", {}).get("ok"):
+        return
+    from harness import c17_imports
+    cases = []
+    for fam, r in all_res:
+        for term, ops in r.get("import_cases", []):
+            cases.append((term, tuple((n, bool(m)) for n, m in ops)))
+    n_real = len(cases)
+    import collections, decimal, enum, pathlib, types, typing
+    T1 = typing.TypeVar("T1", int, decimal.Decimal)
+    T2 = typing.TypeVar("T2", bound=pathlib.PurePath)
+    for t in [int, None, type(None), typing.Any, typing.List[int], typing.Dict[str, typing.Optional[decimal.Decimal]], types.MappingProxyType[str, int],
+              typing.Literal[1, enum.Enum, "x"], typing.Literal[1, typing.Literal[2, 3]], typing.Tuple[int, ...], T1, T2, list[pathlib.Path], int | None,
+              collections.OrderedDict[str, decimal.Decimal], typing.Union[int, str, None], typing.DefaultDict[str, types.MappingProxyType[str, T1]],
+              typing.List[T2], collections.abc.Mapping[str, typing.Tuple[()]], typing.FrozenSet[enum.IntFlag]]:
+        c = c17_imports.case(t)
+        if c is not None:
+            cases.append((c[0], tuple(c[1])))
+    cases = list(dict.fromkeys(cases))
+    ctx.hist("type-imports", "annotations-read", n_real)
+
+    def ops(o):
+        return "[" + "; ".join(f"OSet {vlib.coq_str(n)} {'true' if m else 'false'}" for n, m in o) + "]"
+    ccases = [f"({t}, {ops(o)})" for t, o in cases]
+    defs = ("Definition op_eqb (a b : op) : bool := match a, b with OSet n1 m1, OSet n2 m2 => String.eqb n1 n2 && Bool.eqb m1 m2 end.\n"
+            "Fixpoint ops_eqb (a b : list op) : bool := match a, b with [], [] => true | x :: r, y :: s => op_eqb x y && ops_eqb r s | _, _ => false end.\n")
+    bad, log = vlib.coq_bad_idx(f"c17_k46_{ctx.seed}", "", "From VerifGen Require Import K46.", defs, ccases,
+                                "fun c => ops_eqb (K46.add_type_modules (fst c)) (snd c)", "mty * list op", shard=600, needs=["gen/K46.vo"])
+    name = ("K46 (add_type_modules / ensure_module_imported / ensure_object_imported translated: sequence of globals.setdefault calls) vs the real methods on a "
+            "recording globals, on the field annotations of the generated schemas + typing shapes")
+    if bad is None:
+        ctx.correspondence(name, len(cases), -1, log)
+        ctx.not_shown("translation validation K46", log)
+    else:
+        ctx.correspondence(name, len(cases), len(bad), str([cases[i] for i in bad[:3]])[:1500])
+        if bad:
+            ctx.not_shown("translation validation K46", f"what the type looks like, real setdefault sequence: {[cases[i] for i in bad[:3]]!r}"[:3000])
+    ctx.obligation("the real add_type_modules was exercised on annotations of the generated schemas", n_real > 0, f"{n_real} annotations")
     ctx.count(n=len(cases))
 
 
